@@ -1078,3 +1078,11 @@ TABLE["C14"] += [
     B("main-module-file-opened-for-update", {"R6"},
       (PW, "        with open(main_module_name, \"w\", encoding=\"UTF-8\") as f:", "        with open(main_module_name, \"r+\", encoding=\"UTF-8\") as f:")),
 ]
+TABLE["C12"] += [
+    B("comment-skipper-installed-on-an-empty-forward", {"L1"},
+      (IP + "type.py", "    rule = Forward()\n", "    rule = Forward()\n    rule.ignore(cppStyleComment)\n"),
+      (IP + "type.py", "from pyparsing import Forward, Optional, Or, delimitedList", "from pyparsing import Forward, Optional, Or, cppStyleComment, delimitedList")),
+    N("comment-skipper-also-installed-on-a-complete-rule",
+      (IP + "declaration.py", "class ForwardDeclaration:", "Include.rule.ignore(cppStyleComment)\n\n\nclass ForwardDeclaration:"),
+      (IP + "declaration.py", "from pyparsing import CharsNotIn, Optional  # type: ignore", "from pyparsing import CharsNotIn, Optional, cppStyleComment  # type: ignore")),
+]
